@@ -11,7 +11,7 @@ if ! (cd "$d/repo" && patch -p1 -s --no-backup-if-mismatch < "$patch"); then ech
 mkdir -p "$d/ev"
 rc=0
 for p in "$@"; do
-  "$bin" -property "$p" -root "$d/repo" -verif "$d/ev" 2>&1 | sed "s#$d/repo/##g" | grep -v '^property ' | head -${LINES_MAX:-12}
+  "$bin" -property "$p" -root "$d/repo" -verif "$d/ev" -known /verif/known_findings.txt 2>&1 | sed "s#$d/repo/##g" | grep -v '^property ' | head -${LINES_MAX:-12}
   st=${PIPESTATUS[0]}; [ $st -ne 0 ] && rc=$st
 done
 echo "exit=$rc"
